@@ -43,6 +43,19 @@ CHECKS['C15'] = (
     'elements; topologies have <= 3 ROADM sites.',
     'DESIGN.md 3/C15')
 
+CHECKS['C06'] = (
+    'complete product enumeration of ROADM equalisation configurations on designed micro line systems, every crossing kind x '
+    'spectrum x input-level pattern through the real Roadm.__call__, oracle computed from the input documents',
+    'All combinations of library policy, node policy and value, per-degree override kind and value (override of a different '
+    'kind included) and ROADM impairment profiles (none / per-band max-loss / element-selected profile) are designed with the '
+    'real designed_network; every add/express/drop crossing is driven with 4 spectra x 7 per-channel input-level patterns and '
+    '4 recorded end-to-end propagations; each channel must leave with min(target+offset, input-path loss), never above its '
+    'input, PMD/PDL in quadrature, noise shares untouched. All 64 combinations of equalisation keys at library/element level '
+    'must give exactly one policy in force or a configuration error.',
+    'Targets/offsets/levels are taken from small alphabets; impairment profiles cover the whole spectrum; reference carrier '
+    '32 GBaud / 50 GHz.',
+    'DESIGN.md 3/C06')
+
 ALL = [f'C{i:02d}' for i in range(1, 21)]
 NOT_BUILT_REASON = 'check not built yet in this round (planned, see DESIGN.md section 3); not claimed until it runs'
 
